@@ -1,15 +1,23 @@
 """Host-side DFU protocol rules over the paths of dfu.cli_main (C18, C19).
 
-cli_main is walked with every module-level helper and local closure inlined (pathwalk inline='all'), so the protocol events are the
-device.ctrl_transfer(...) calls themselves, classified by their folded arguments - however the code is factored into helpers and
-whatever its variables are called.  The quantities the rules talk about are *derived from the events*:
+cli_main is walked with every module-level helper and local closure inlined (pathwalk inline='all'; `sys.exit` / `parser.error`
+end the path; `if t: <calls made for effect only>` does not fork it), so the protocol events are the device.ctrl_transfer(...) calls
+themselves, classified by their folded arguments - however the code is factored into helpers and whatever its variables are called.
+A path ends where it reads a local of cli_main that is unbound on it (page_size for a device that is not a GD32 part).  The
+quantities the rules talk about are *derived from the events*:
 
   S      chunk size        = hi - lo of the slice sent by the data download
   FW     flashed buffer    = the object that slice is taken from
-  N      page count        = argument of range() of the loops that enclose the erase / write requests
-  PAGE   page index        = loop variable of that loop
+  N      page count        = trip count of the loops that enclose the erase / write requests (range, enumerate, a comprehension
+                             or a generator over a range)
+  PAGE   page index        = iteration number of that loop; its variables are polynomials in PAGE
   LEN    raw image length  = len() of the value read from the file (the `res` leaf of FW)
+  Q, R   LEN = Q*S + R     = the Euclidean division of the path (divmod, or // and %), 0 <= R < S, and what its branch conditions
+                             say about R; polynomials are compared in that normal form
   CAP    flash capacity    = LEN - g for the size guard  g > 0 -> refuse
+
+Three-valued throughout: a request field, payload, loop, test or residue that is not read ends without verdict (Undecided /
+Report.undecided), never in a finding and never in a silent pass.
 """
 import ast
 
@@ -35,6 +43,64 @@ def strip(v):
     return v
 
 
+TRANSPARENT = ('bytes', 'bytearray', 'memoryview', 'list', 'tuple')
+
+
+def unwrap1(v):
+    """The operand of a conversion that keeps the bytes (bytes(x), bytearray(x), memoryview(x), list(x), tuple(x), x.tobytes(),
+    x.tolist()), else None."""
+    if not isinstance(v, tuple) or not v:
+        return None
+    if v[0] == 'call' and v[1] in TRANSPARENT and len(v[2]) == 1 and not v[3] and isinstance(v[2][0], tuple) and v[2][0][:1] != ('star',):
+        return v[2][0]
+    if v[0] == 'mcall' and v[2] in ('tobytes', 'tolist') and not v[3] and not (len(v) > 4 and v[4]):
+        return v[1]
+    return None
+
+
+def unwrap(v):
+    """strip() through bound results and byte-preserving conversions."""
+    while True:
+        v = strip(v)
+        inner = unwrap1(v)
+        if inner is None:
+            return v
+        v = inner
+
+
+class Consts(dict):
+    """Module-level constants of dfu.py plus what the rules need to know about module-level objects that are not constants."""
+    structs = {}         # NAME = struct.Struct(fmt)  ->  fmt
+    assigned = ()        # every name bound at module level (folded or not)
+
+
+def module_consts(facts):
+    c = Consts(facts.consts)
+    c.structs = {}
+    c.assigned = set(facts.assign_nodes)
+    for name, st in facts.assign_nodes.items():
+        val = getattr(st, 'value', None)
+        if isinstance(val, ast.Call) and dotted(val.func) in ('struct.Struct', 'Struct') and len(val.args) == 1 and not val.keywords:
+            try:
+                fmt = fold(val.args[0], facts.consts)
+            except NotConstant:
+                continue
+            if isinstance(fmt, str) and isinstance(getattr(st, 'targets', [None])[0], ast.Name):
+                c.structs[name] = fmt
+    return c
+
+
+def struct_format(recv, consts):
+    """Format string of a struct.Struct object (module-level NAME = struct.Struct(fmt), or the constructor call itself)."""
+    r = strip(recv)
+    if r[0] == 'name':
+        return getattr(consts, 'structs', {}).get(r[1])
+    if r[0] == 'call' and r[1] in ('struct.Struct', 'Struct') and len(r[2]) == 1 and not r[3]:
+        f = fold_sym(r[2][0], consts)
+        return f if isinstance(f, str) else None
+    return None
+
+
 def fold_sym(v, consts):
     """Integer / bytes / str value of a symbolic expression over module constants, or None."""
     v = strip(v)
@@ -52,6 +118,15 @@ def fold_sym(v, consts):
     if v[0] in ('tuple', 'list'):
         vals = [fold_sym(e, consts) for e in v[1]]
         return None if any(e is None for e in vals) else vals
+    if v[0] == 'call' and v[1] == 'struct.calcsize' and len(v[2]) == 1 and not v[3]:
+        lay = unpack_layout(fold_sym(v[2][0], consts), sized=True)
+        return lay[1] if lay is not None else None
+    if v[0] == 'attr' and v[2] == 'size':
+        lay = unpack_layout(struct_format(v[1], consts), sized=True)
+        return lay[1] if lay is not None else None
+    if v[0] == 'call' and v[1] == 'len' and len(v[2]) == 1 and not v[3]:
+        a = fold_sym(v[2][0], consts)
+        return len(a) if isinstance(a, (bytes, str, list)) else None
     return None
 
 
@@ -59,8 +134,62 @@ PYUSB_PARAMS = ['bmRequestType', 'bRequest', 'wValue', 'wIndex', 'data_or_wLengt
 DNLOAD_KINDS = ('ERASE', 'SETADDR', 'DATA')
 
 
+def payload_pieces(v, consts):
+    """A byte string written out as a sequence of fields: [(size in bytes, value term, byte order '<' / '>' / None for one byte)],
+    or None when the expression is not such a construction.  struct.pack / Struct.pack with an explicit byte order, bytes([a, b]),
+    x.to_bytes(n, order), byte-string constants and their concatenation."""
+    v = strip(v)
+    if not isinstance(v, tuple) or not v:
+        return None
+    if is_const(v) and isinstance(v[1], (bytes, bytearray)):
+        return [(1, C(b), None) for b in v[1]]
+    if v[0] == 'name' and isinstance(consts.get(v[1]), bytes):
+        return [(1, C(b), None) for b in consts[v[1]]]
+    fmt = args = None
+    if v[0] == 'call' and v[1] == 'struct.pack' and v[2] and not v[3]:
+        fmt, args = fold_sym(v[2][0], consts), v[2][1:]
+    elif v[0] == 'mcall' and v[2] == 'pack' and not v[4] and struct_format(v[1], consts) is not None:
+        fmt, args = struct_format(v[1], consts), v[3]
+    if fmt is not None or (v[0] == 'call' and v[1] == 'struct.pack'):
+        lay = unpack_layout(fmt)
+        if lay is None or any(a[0] == 'star' for a in args):
+            return None
+        fields = [f for f in lay if f[2] != 'x']
+        if len(fields) != len(args):
+            return None
+        out = []
+        it = iter(args)
+        for off, size, code in lay:
+            if code == 'x':
+                out.extend([(1, C(0), None)] * size)
+            elif code in 'sp':
+                return None
+            else:
+                out.append((size, next(it), '<' if fmt[0] in '<=' else '>'))
+        return out
+    if v[0] == 'call' and v[1] in ('bytes', 'bytearray') and len(v[2]) == 1 and not v[3]:
+        a = strip(v[2][0])
+        if a[0] in ('list', 'tuple') and not any(e[0] == 'star' for e in a[1]):
+            return [(1, e, None) for e in a[1]]
+        return payload_pieces(a, consts) if a[0] in ('call', 'mcall', 'bin', 'const') else None
+    if v[0] == 'mcall' and v[2] == 'to_bytes' and 1 <= len(v[3]) + len(v[4]) <= 3:
+        kw = dict(v[4])
+        n = fold_sym(v[3][0] if v[3] else kw.get('length', C(1)), consts)
+        order = fold_sym(v[3][1] if len(v[3]) > 1 else kw.get('byteorder', C('big')), consts)
+        signed = kw.get('signed', C(False))
+        if isinstance(n, int) and n > 0 and order in ('little', 'big') and signed == C(False):
+            return [(n, v[1], '<' if order == 'little' else '>')]
+        return None
+    if v[0] == 'bin' and v[1] == '+':
+        a, b = payload_pieces(v[2], consts), payload_pieces(v[3], consts)
+        return None if a is None or b is None else a + b
+    return None
+
+
 class Request:
-    """One ctrl_transfer call on a path."""
+    """One ctrl_transfer call on a path.  kind: POLL / CLR / ERASE / SETADDR / DATA, OTHER for a request number that is none of
+    GETSTATUS, CLRSTATUS, DNLOAD, DNLOAD? for a download whose payload is a field construction that is not a DfuSe address
+    command.  A request whose number cannot be folded gives no verdict."""
 
     def __init__(self, idx, node, site, recv, params, raw, consts):
         self.idx, self.node, self.site, self.recv, self.params, self.raw = idx, node, site, recv, params, raw
@@ -73,18 +202,27 @@ class Request:
         self.addr = None
         self.payload = None
         self.pack = None
+        if not isinstance(self.request, int) or isinstance(self.request, bool):
+            raise Undecided('the request number of the control transfer at line {} is not a constant the rules can fold: {}'.format(
+                getattr(node, 'lineno', '?'), show(params['bRequest'])[:60] if 'bRequest' in params else 'missing'))
         R = oracle.DFU['requests']
         if self.request == R['REQUEST_DFU_GETSTATUS']:
             self.kind = 'POLL'
         elif self.request == R['REQUEST_DFU_CLRSTATUS']:
             self.kind = 'CLR'
         elif self.request == R['REQUEST_DFU_DNLOAD']:
-            d = strip(self.data) if self.data is not None else None
-            if d is not None and d[0] == 'call' and d[1] == 'struct.pack' and len(d[2]) >= 2:
-                fmt = fold_sym(d[2][0], consts)
-                cmd = fold_sym(d[2][1], consts)
-                self.pack = (fmt, cmd, d[2][2:])
-                self.addr = d[2][2] if len(d[2]) > 2 else None
+            pieces = payload_pieces(self.data, consts) if self.data is not None else None
+            if pieces:
+                cmd = fold_sym(pieces[0][1], consts) if pieces[0][0] == 1 else None
+                # (layout as a canonical struct format, command byte, the remaining field values): what R18.1.dfuse-command looks at
+                orders = {o for sz, _, o in pieces if sz > 1}
+                fmt = ('<' if orders <= {'<'} else '>' if orders == {'>'} else '?') + ''.join(
+                    {1: 'B', 2: 'H', 4: 'I', 8: 'Q'}.get(sz, '{}s'.format(sz)) for sz, _, _ in pieces)
+                self.pack = (fmt, cmd, tuple(t for _, t, _ in pieces[1:]))
+                self.addr = pieces[1][1] if len(pieces) > 1 else None
+                if pieces[0][0] == 1 and cmd is None:
+                    raise Undecided('the command byte of the download at line {} is not a constant the rules can fold: {}'.format(
+                        getattr(node, 'lineno', '?'), show(pieces[0][1])[:60]))
                 if cmd == oracle.DFU['dfuse']['DFUSE_CMD_ERASE_PAGE']:
                     self.kind = 'ERASE'
                 elif cmd == oracle.DFU['dfuse']['DFUSE_CMD_SET_ADDRESS']:
@@ -92,12 +230,42 @@ class Request:
                 else:
                     self.kind = 'DNLOAD?'
             else:
+                d = strip(self.data) if self.data is not None else None
+                if d is not None and ((d[0] == 'call' and d[1] in ('struct.pack', 'struct.pack_into')) or (d[0] == 'mcall' and d[2] in ('pack', 'to_bytes'))
+                                      or (d[0] == 'bin' and d[1] in ('+', '%', '*'))):
+                    raise Undecided('the payload of the download at line {} is built in a way the rules cannot read: {}'.format(
+                        getattr(node, 'lineno', '?'), show(d)[:80]))
                 self.kind = 'DATA'
                 self.payload = self.data
 
     @property
     def line(self):
         return getattr(self.site, 'lineno', getattr(self.node, 'lineno', None))
+
+
+def is_ctrl(v):
+    return isinstance(v, tuple) and len(v) > 2 and v[0] == 'mcall' and v[2] == 'ctrl_transfer'
+
+
+_BARE = {}
+
+
+def bare_ctrl(v):
+    """Does the value contain a ctrl_transfer call that is not the (possibly converted) content of a bound result?  Bound results
+    are requests in their own right (their `value` event); a bare call sits inside an expression the rules do not take apart."""
+    if not isinstance(v, tuple) or not v:
+        return False
+    hit = _BARE.get(id(v))
+    if hit is not None and hit[0] is v:
+        return hit[1]
+    if v[0] == 'res' and is_ctrl(unwrap(v)):
+        r = any(bare_ctrl(x) for x in unwrap(v)[1:])
+    elif is_ctrl(v):
+        r = True
+    else:
+        r = any(bare_ctrl(x) for x in v)
+    _BARE[id(v)] = (v, r)
+    return r
 
 
 def request_of(ev, idx, path, consts):
@@ -107,8 +275,8 @@ def request_of(ev, idx, path, consts):
         raw = ('mcall', recv, 'ctrl_transfer', args, kwargs)
     elif ev[0] in ('value', 'expr'):
         raw = ev[1]
-        v = strip(raw)
-        if not (isinstance(v, tuple) and v and v[0] == 'mcall' and v[2] == 'ctrl_transfer'):
+        v = unwrap(raw)
+        if not is_ctrl(v):
             return None
         recv, args, kwargs, node = v[1], v[3], v[4], ev[2]
     else:
@@ -118,6 +286,8 @@ def request_of(ev, idx, path, consts):
         params[n] = a
     for k, a in kwargs:
         params[k] = a
+    if any(a[0] == 'star' for a in args) or any(k is None for k, _ in kwargs):
+        raise Undecided('control transfer at line {} is called with unpacked arguments'.format(getattr(node, 'lineno', '?')))
     return Request(idx, node, path.sites.get(idx, node), recv, params, raw, consts)
 
 
@@ -125,38 +295,240 @@ def main_paths(facts):
     fn = facts.funcs.get('cli_main')
     if fn is None:
         raise AnalysisError('anchor vanished: dfu.cli_main')
-    w = Walker(facts, name_results=True, inline='all')
+    w = Walker(facts, name_results=True, inline='all', exits_end_paths=True, guard_effects=True)
     w.opaque = {'cli_main'}
+    _BARE.clear()
+    _RV.clear()
+    _UNBOUND.clear()
+    _DM_TERMS.clear()
     paths = w.run(fn.body, PathState())
-    return fn, [p for p in paths if feasible(p, facts.consts)]
+    consts = module_consts(facts)
+    paths = end_at_unbound_locals(fn, facts, paths)
+    return fn, [p for p in paths if feasible(p, consts)]
+
+
+_UNBOUND = {}
+
+
+def unbound_name(v, names):
+    """The first of `names` that the value reads as a bare ('name', x) term: a local variable that has no value on this path."""
+    if not isinstance(v, tuple) or not v:
+        return None
+    if v[0] == 'name' and len(v) == 2:
+        return v[1] if v[1] in names else None
+    if v[0] in ('const', 'lambda', 'closure', 'opaque'):
+        return None
+    hit = _UNBOUND.get(id(v))
+    if hit is not None and hit[0] is v:
+        return hit[1]
+    r = None
+    for x in v[1:]:
+        if isinstance(x, tuple):
+            r = unbound_name(x, names)
+            if r is not None:
+                break
+    _UNBOUND[id(v)] = (v, r)
+    return r
+
+
+def end_at_unbound_locals(fn, facts, paths):
+    """A path that reads a local variable of cli_main before any assignment to it on that path (page_size for a device that is not a
+    GD32 part) ends there with UnboundLocalError: nothing after that point happens.  The symbolic walk carries such a read as the
+    bare name; here the path is cut at the first event that contains one, and paths that become equal are merged."""
+    import builtins
+    local = {n.id for n in ast.walk(fn) if isinstance(n, ast.Name) and isinstance(n.ctx, ast.Store)}
+    local |= {a.arg for a in fn.args.args + fn.args.kwonlyargs}
+    for n in ast.walk(fn):
+        if isinstance(n, (ast.Global, ast.Nonlocal)):
+            local -= set(n.names)
+    # a name that also exists at module level may be a helper's global of the same spelling: left alone
+    module_names = set(facts.assign_nodes) | set(facts.funcs) | set(facts.classes) | set(dir(builtins))
+    for st in facts.tree.body:
+        if isinstance(st, (ast.Import, ast.ImportFrom)):
+            module_names |= {(a.asname or a.name).split('.')[0] for a in st.names}
+    local -= module_names
+    if not local:
+        return paths
+    out, seen = [], set()
+    for p in paths:
+        cut = None
+        for i, ev in enumerate(p.events):
+            for x in ev[1:]:
+                if isinstance(x, tuple):
+                    nm = unbound_name(x, local)
+                    if nm is not None:
+                        cut = (i, nm, ev[-1])
+                        break
+            if cut:
+                break
+        if cut is None:
+            out.append(p)
+            continue
+        i, nm, node = cut
+        key = tuple(id(e) for e in p.events[:i]) + (nm,)
+        if key in seen:
+            continue
+        seen.add(key)
+        p.events = p.events[:i] + [('raise', ('call', 'UnboundLocalError', (C(nm),), ()), node)]
+        p.conds = [(e[1], e[2], e[3]) for e in p.events if e[0] == 'cond']
+        p.sites = {k: v for k, v in p.sites.items() if k < i}
+        p.end = 'raise'
+        p.end_node = node
+        out.append(p)
+    return out
+
+
+def path_divmods(p, sym):
+    """The Euclidean divisions a path computes and what its branch conditions say about their remainders (see DivMod).  The terms
+    are looked for where the rules need them: in the iterables of the loops, in the branch conditions and in bound divmod results."""
+    cache = p.__dict__.setdefault('_divmods', {})
+    if id(sym.raw) in cache and cache[id(sym.raw)][0] is sym.raw:
+        return cache[id(sym.raw)][1]
+    found = {}
+    bound = {}
+
+    def of_divmod(t, k):
+        """t is part k of a divmod(a, b) result: by unpacking (`q, r = divmod(..)`) or by index (`d = divmod(..); d[0]`)."""
+        if not ((t[0] == 'unpack' and t[2] == str(k) and len(t) > 3 and t[3] == 2) or (t[0] == 'sub' and t[2] in (C(k), C(k - 2)))):
+            return False
+        src = strip(t[1])
+        return src[0] == 'call' and src[1] == 'divmod' and len(src[2]) == 2 and not src[3]
+
+    def is_q(t):
+        return of_divmod(t, 0) or (t[0] == 'bin' and t[1] == '//')
+
+    def is_r(t):
+        return of_divmod(t, 1) or (t[0] == 'bin' and t[1] == '%' and not (is_const(t[2]) and isinstance(t[2][1], (str, bytes))))
+
+    def operands(t):
+        return tuple(strip(t[1])[2]) if t[0] in ('unpack', 'sub') else (t[2], t[3])
+
+    def parts_in(v):
+        hit = _DM_TERMS.get(id(v))
+        if hit is None or hit[0] is not v:
+            hit = (v, find_all(v, lambda t: is_q(t) or is_r(t)))
+            _DM_TERMS[id(v)] = hit
+        return hit[1]
+
+    def note(v):
+        for t in parts_in(v):
+            a, b = operands(t)
+            d = found.setdefault((a, b), DivMod(a, b, None, None))
+            # `divmod` gives both parts; `a // b` and `a % b` are paired by their operands.  Of two spellings of the same part
+            # (divmod and //) the first one seen names it; the other one stays an opaque term (no verdict rather than a guess).
+            if is_q(t) and d.q is None:
+                d.q = t
+            elif is_r(t) and d.r is None:
+                d.r = t
+    for ev in p.events:
+        if ev[0] in ('loop', 'loop0', 'cond', 'while', 'endwhile', 'endwhile0'):
+            note(ev[1])
+        elif ev[0] == 'value' and strip(ev[1])[0] == 'call' and strip(ev[1])[1] == 'divmod' and len(strip(ev[1])[2]) == 2 and not strip(ev[1])[3]:
+            a, b = strip(ev[1])[2]
+            bound.setdefault((a, b), ev[1])
+    out = []
+    for key, res in bound.items():
+        # a bound divmod result whose parts were not seen in a loop range or a condition: named as the unpacked parts
+        d = found.setdefault(key, DivMod(key[0], key[1], None, None))
+        d.q = d.q or ('unpack', res, '0', 2)
+        d.r = d.r or ('unpack', res, '1', 2)
+    for d in found.values():
+        for mine, other, k in ((d.q, 'r', 1), (d.r, 'q', 0)):
+            if mine is not None and mine[0] in ('unpack', 'sub') and getattr(d, other) is None:
+                # the other part of the same divmod result, spelled the same way
+                setattr(d, other, ('unpack', mine[1], str(k), 2) if mine[0] == 'unpack' else ('sub', mine[1], C(k)))
+        d.pa, d.pb = sym.poly(d.a), sym.poly(d.b)
+        if d.r is not None:
+            # what the branch conditions of the path say about the remainder: evaluated for r = 0 and for a spread of non-zero values
+            zero_ok, nonzero_all = True, True
+            unread = False
+            samples = (1, 2, 3, 7, 255, 256, 1023, 4095, 65535)
+            alive = set(samples)                  # the non-zero sample values every condition read so far allows
+            for t, pol, _ in p.conds:
+                if d.r not in parts_in(t):
+                    continue
+                r0 = eval_sym_test(t, {d.r: 0}, sym.consts)
+                rn = {k: eval_sym_test(t, {d.r: k}, sym.consts) for k in samples}
+                if r0 is None or any(x is None for x in rn.values()):
+                    unread = True
+                    continue
+                zero_ok = zero_ok and (r0 == pol)
+                nonzero_all = nonzero_all and all(x == pol for x in rn.values())
+                alive &= {k for k, x in rn.items() if x == pol}
+            if unread:
+                pass
+            elif zero_ok and not alive:
+                d.r_zero = True
+            elif not zero_ok and nonzero_all:
+                d.r_zero = False
+            elif zero_ok and alive:
+                d.r_free = True                   # taken for r == 0 and for some r != 0 alike
+        out.append(d)
+    cache[id(sym.raw)] = (sym.raw, out)
+    return out
+
+
+_DM_TERMS = {}
 
 
 def range_trips(it, sym):
-    """Trip count of a range(...) value as a polynomial (None when it is not one): stop, or (stop - start) / step when exact."""
+    """Trip count of a range(...) value as a polynomial (None when it is not one): stop, or (stop - start) / step when exact, after
+    the Euclidean divisions of the path have been put in normal form (a = q*b + r)."""
     args = it[2]
     if it[3] or not 1 <= len(args) <= 3:
         return None
     try:
         if len(args) == 1:
-            return sym.poly(args[0])
+            return sym.normal(sym.poly(args[0]))
         start, stop = sym.poly(args[0]), sym.poly(args[1])
         step = sym.poly(args[2]) if len(args) == 3 else Poly.const(1)
-        return divide(stop - start, step)
+        return divide(sym.normal(stop - start), step)
     except Undecided:
         return None
 
 
+def loop_range(it):
+    """The range(...) value a loop iterable runs over once per iteration: range itself, enumerate(X), a comprehension without
+    conditions over X; None for anything else."""
+    its = strip(it)
+    if its[0] == 'call' and its[1] == 'range' and 1 <= len(its[2]) <= 3 and not its[3]:
+        return its
+    if its[0] == 'call' and its[1] == 'enumerate' and 1 <= len(its[2]) <= 2 and all(k == 'start' for k, _ in its[3]):
+        return loop_range(its[2][0])
+    if its[0] == 'comp' and not its[5] and its[1] in ('ListComp', 'GeneratorExp'):
+        return loop_range(its[4])
+    if unwrap1(its) is not None:
+        return loop_range(unwrap1(its))
+    return None
+
+
 def feasible(p, consts=None):
-    """Two range(...) loops with the same trip count (the structurally identical range value, or the same polynomial
-    (stop - start) / step) run the same number of times: a path on which one ran zero times and the other at least once does
-    not exist."""
+    """Two loops that run once per element of range(...) values with the same trip count (the structurally identical range value,
+    or the same polynomial (stop - start) / step) run the same number of times: a path on which one ran zero times and the other
+    at least once does not exist; nor does a path on which a loop over range(n) with n known to be positive ran zero times."""
     trips = {}
     sym = Sym(consts or {})
+    sym.divmods = path_divmods(p, sym)
     for ev in p.events:
+        if ev[0] == 'cond' and sym.divmods:
+            t = strip(ev[1])
+            try:
+                if t[0] == 'bin' and t[1] in ('+', '-', '*') and not ev[2] and sym.positive(sym.normal(sym.poly(t))):
+                    return False           # `if b - r:` not taken: b - r of a Euclidean division is never zero
+                g = sym.gt(t)
+                if g is not None and not ev[2] and sym.positive(sym.normal(g)):
+                    return False
+                if t[0] == 'cmp' and t[1] in ('==', '!=') and (t[1] == '==') == ev[2] and t[2][0] != 'const' \
+                        and sym.positive(sym.normal(sym.poly(t[2]) - sym.poly(t[3]))):
+                    return False
+            except Undecided:
+                pass
         if ev[0] in ('loop', 'loop0'):
-            it = strip(ev[1])
-            if it[0] == 'call' and it[1] == 'range':
+            it = loop_range(ev[1])
+            if it is not None:
                 n = range_trips(it, sym)
+                if n is not None and ev[0] == 'loop0' and sym.positive(n):
+                    return False           # range(n) with n > 0 (b - r of a Euclidean division, ...) runs at least once
                 key = it if n is None else repr(n)
                 got = ev[0] == 'loop'
                 if trips.setdefault(key, got) != got:
@@ -176,8 +548,13 @@ def protocol_events(path, consts):
     for i, ev in enumerate(path.events):
         r = request_of(ev, i, path, consts)
         if r is not None:
+            if any(bare_ctrl(x) for x in r.params.values()):
+                raise Undecided('a control transfer is nested in the arguments of the one at line {}'.format(r.line))
             out.append(('REQ', i, r.site, r))
             continue
+        if any(bare_ctrl(x) for x in ev[1:] if isinstance(x, tuple)):
+            raise Undecided('a control transfer sits inside an expression the rules do not take apart (line {}): {}'.format(
+                getattr(ev[-1], 'lineno', '?'), ' '.join(show(x)[:70] for x in ev[1:] if isinstance(x, tuple))[:120]))
         site = path.sites.get(i)
         if ev[0] == 'cond':
             out.append(('COND', i, site or ev[3], (ev[1], ev[2])))
@@ -191,13 +568,27 @@ def protocol_events(path, consts):
                 out.append(('EXIT', i, site or ev[2], v[2]))
             elif v[0] == 'call' and v[1] in ('time.sleep', 'sleep'):
                 out.append(('SLEEP', i, site or ev[2], v[2][0] if v[2] else None))
+        elif ev[0] == 'guarded':
+            # a call made only when a condition holds (the walk did not fork on it): a conditional sleep is ('GSLEEP', .., (arg, test, pol))
+            inner = ev[3]
+            if inner[0] == 'mcall' and inner[2] == 'ctrl_transfer':
+                raise Undecided('a control transfer is issued under a condition the walk did not fork on (line {})'.format(getattr(ev[-1], 'lineno', '?')))
+            v = strip(inner[1]) if inner[0] == 'expr' else None
+            if v is not None and v[0] == 'call' and v[1] in ('time.sleep', 'sleep'):
+                out.append(('GSLEEP', i, site or ev[4], (v[2][0] if v[2] else None, ev[1], ev[2])))
     path._proto = out
     return out
 
 
 # -- the GETSTATUS reply --------------------------------------------------------------------------------------------------------
-def unpack_layout(fmt):
-    """[(byte offset, size, code)] per field of a struct format with explicit byte order, or None."""
+def unpack_layout(fmt, sized=False):
+    """[(byte offset, size, code)] per field of a struct format with explicit byte order, or None (pad bytes: code 'x'); with
+    `sized` the pair (that list, total size)."""
+    if sized:
+        lay = unpack_layout(fmt)
+        if lay is None:
+            return None
+        return lay, max([o + sz for o, sz, _ in lay] or [0])
     if not isinstance(fmt, str) or not fmt or fmt[0] not in '<>=!':
         return None
     out = []
@@ -217,7 +608,10 @@ def unpack_layout(fmt):
             out.append((off, cnt, 's'))
             off += cnt
         elif c == 'x':
+            out.append((off, cnt, 'x'))
             off += cnt
+        elif c.isspace():
+            continue
         elif c in oracle.STRUCT_SIZES:
             for _ in range(cnt):
                 out.append((off, oracle.STRUCT_SIZES[c], c))
@@ -228,96 +622,333 @@ def unpack_layout(fmt):
 
 
 def _is_reply(v):
+    return is_ctrl(unwrap(v))
+
+
+def subst_vars(v, env):
+    """The symbolic value with the comprehension variables ('var', name) replaced by the values in env."""
+    if not isinstance(v, tuple) or not v:
+        return v
+    if v[0] == 'var' and len(v) == 2 and v[1] in env:
+        return env[v[1]]
+    if v[0] in ('rv', 'const'):
+        return v
+    return tuple(subst_vars(x, env) for x in v)
+
+
+def _int(weights, const, reply):
+    return ('int', {k: w for k, w in weights.items() if w}, const, reply)
+
+
+def _same_reply(a, b):
+    """The reply two values are made of (None for constants); False when they come from different replies."""
+    if a is None:
+        return b
+    if b is None or a == b:
+        return a
+    return False
+
+
+def _as_seq(val):
+    """A bytes value seen as the sequence of its bytes (iteration / indexing / tuple(..) give ints)."""
+    if val[0] == 'seq':
+        return val
+    if val[0] == 'bytes':
+        return ('seq', [_int({c[1]: 1}, 0, val[2]) if c[0] == 'r' else _int({}, c[1], None) for c in val[1]], val[2])
+    return None
+
+
+_RV = {}
+
+
+def reply_value(v, consts):
+    if not isinstance(v, tuple) or not v:
+        return None
+    hit = _RV.get(id(v))
+    if hit is not None and hit[0] is v:
+        return hit[1]
+    r = _reply_value(v, consts)
+    _RV[id(v)] = (v, r)
+    return r
+
+
+def _reply_value(v, consts):
+    """How a value is made of the bytes of ONE GETSTATUS reply (and constants):
+         ('int', {offset: weight}, constant, reply)        the integer  sum(reply[offset] * weight) + constant
+         ('bytes', [('r', offset) | ('c', byte)], reply)   a byte string, cell by cell
+         ('seq', [values], reply)                          a tuple / list of such values (struct.unpack result, list(reply), ..)
+       `reply` is the bound ctrl_transfer result (None for pure constants).  None for anything else."""
+    if not isinstance(v, tuple) or not v:
+        return None
+    if v[0] == 'rv':
+        return v[1]
+    if v[0] == 'res':
+        if _is_reply(v):
+            return ('bytes', [('r', k) for k in range(oracle.DFU['getstatus_len'])], v)
+        return reply_value(v[3], consts)
+    if is_const(v):
+        if isinstance(v[1], bool):
+            return None
+        if isinstance(v[1], int):
+            return _int({}, v[1], None)
+        if isinstance(v[1], (bytes, bytearray)):
+            return ('bytes', [('c', b) for b in v[1]], None)
+        if isinstance(v[1], tuple) and all(isinstance(x, int) and not isinstance(x, bool) for x in v[1]):
+            return ('seq', [_int({}, x, None) for x in v[1]], None)
+        return None
+    k = v[0]
+    if k == 'name':
+        c = consts.get(v[1])
+        return reply_value(C(c), consts) if isinstance(c, (int, bytes)) and not isinstance(c, bool) else None
+    if is_ctrl(v):
+        return ('bytes', [('r', i) for i in range(oracle.DFU['getstatus_len'])], v)
+    if k in ('tuple', 'list'):
+        vals = [reply_value(e, consts) for e in v[1]]
+        if any(x is None for x in vals):
+            return None
+        reply = None
+        for x in vals:
+            reply = _same_reply(reply, x[-1])
+            if reply is False:
+                return None
+        return ('seq', vals, reply)
+    if k == 'unpack':
+        src = reply_value(v[1], consts)
+        seq = _as_seq(src) if src is not None else None
+        if seq is None:
+            return None
+        n = v[3] if len(v) > 3 else None
+        if isinstance(n, int) and abs(n) > len(seq[1]) + (1 if n < 0 else 0):
+            return None
+        if ':' in v[2]:
+            lo, hi = v[2].split(':')
+            try:
+                part = seq[1][int(lo):(int(hi) if hi else None)]
+            except ValueError:
+                return None
+            return ('seq', part, seq[2])
+        try:
+            i = int(v[2])
+        except ValueError:
+            return None
+        return seq[1][i] if -len(seq[1]) <= i < len(seq[1]) else None
+    if k == 'call' and v[1] in ('struct.unpack', 'struct.unpack_from') and 2 <= len(v[2]) <= 3 and not v[3] or \
+            (k == 'mcall' and v[2] in ('unpack', 'unpack_from') and 1 <= len(v[3]) <= 2 and not v[4] and struct_format(v[1], consts) is not None):
+        if k == 'call':
+            fmt, rest, from_ = fold_sym(v[2][0], consts), v[2][1:], v[1].endswith('_from')
+        else:
+            fmt, rest, from_ = struct_format(v[1], consts), v[3], v[2].endswith('_from')
+        lay = unpack_layout(fmt, sized=True)
+        buf = reply_value(rest[0], consts)
+        if lay is None or buf is None or buf[0] != 'bytes' or (len(rest) == 2 and not from_):
+            return None
+        base = fold_sym(rest[1], consts) if len(rest) == 2 else 0
+        cells = buf[1]
+        if not isinstance(base, int) or base < 0 or (not from_ and lay[1] != len(cells)) or base + lay[1] > len(cells):
+            return None
+        out = []
+        for off, size, code in lay[0]:
+            part = cells[base + off:base + off + size]
+            if code == 'x':
+                continue
+            if code == 's':
+                out.append(('bytes', part, buf[2]))
+                continue
+            if code in 'bhilq':
+                return None               # signed fields: not a plain weighted sum
+            w, c0 = {}, 0
+            for b, cell in enumerate(part):
+                wt = (1 << (8 * b)) if fmt[0] in '<=' else (1 << (8 * (size - 1 - b)))
+                if cell[0] == 'r':
+                    w[cell[1]] = w.get(cell[1], 0) + wt
+                else:
+                    c0 += cell[1] * wt
+            out.append(_int(w, c0, buf[2]))
+        return ('seq', out, buf[2])
+    if k == 'sub':
+        base = reply_value(v[1], consts)
+        i = fold_sym(v[2], consts)
+        seq = _as_seq(base) if base is not None else None
+        if seq is None or not isinstance(i, int) or isinstance(i, bool) or not -len(seq[1]) <= i < len(seq[1]):
+            return None
+        return seq[1][i]
+    if k == 'slice':
+        base = reply_value(v[1], consts)
+        if base is None or base[0] not in ('bytes', 'seq') or v[4] != C(None):
+            return None
+        lo = None if v[2] == C(None) else fold_sym(v[2], consts)
+        hi = None if v[3] == C(None) else fold_sym(v[3], consts)
+        if not all(x is None or (isinstance(x, int) and not isinstance(x, bool)) for x in (lo, hi)):
+            return None
+        return (base[0], base[1][lo:hi], base[2])
+    inner = unwrap1(v)
+    if inner is not None:
+        val = reply_value(inner, consts)
+        if val is None or val[0] == 'int':
+            return None
+        if (k == 'call' and v[1] in ('list', 'tuple')) or (k == 'mcall' and v[2] == 'tolist'):
+            return _as_seq(val)
+        if val[0] == 'seq':
+            # bytes([a, b, c]) of one-byte values
+            cells = []
+            for x in val[1]:
+                if x[0] == 'int' and not x[2] and len(x[1]) == 1 and list(x[1].values()) == [1]:
+                    cells.append(('r', next(iter(x[1]))))
+                elif x[0] == 'int' and not x[1] and 0 <= x[2] < 256:
+                    cells.append(('c', x[2]))
+                else:
+                    return None
+            return ('bytes', cells, val[2])
+        return val
+    if k == 'mcall' and v[1] == ('name', 'int') and v[2] == 'from_bytes' and v[3]:
+        buf = reply_value(v[3][0], consts)
+        kw = dict(v[4])
+        order = v[3][1] if len(v[3]) > 1 else kw.get('byteorder')
+        order = fold_sym(order, consts) if order is not None else 'big'
+        if buf is None or buf[0] != 'bytes' or order not in ('little', 'big') or kw.get('signed', C(False)) != C(False):
+            return None
+        w, c0 = {}, 0
+        size = len(buf[1])
+        for b, cell in enumerate(buf[1]):
+            wt = (1 << (8 * b)) if order == 'little' else (1 << (8 * (size - 1 - b)))
+            if cell[0] == 'r':
+                w[cell[1]] = w.get(cell[1], 0) + wt
+            else:
+                c0 += cell[1] * wt
+        return _int(w, c0, buf[2])
+    if k == 'bin' and v[1] in ('|', '+', '-'):
+        a, b = reply_value(v[2], consts), reply_value(v[3], consts)
+        if a is None or b is None:
+            return None
+        reply = _same_reply(a[-1], b[-1])
+        if reply is False:
+            return None
+        if a[0] == 'bytes' and b[0] == 'bytes' and v[1] == '+':
+            return ('bytes', a[1] + b[1], reply)
+        if a[0] == 'seq' and b[0] == 'seq' and v[1] == '+':
+            return ('seq', a[1] + b[1], reply)
+        if a[0] != 'int' or b[0] != 'int':
+            return None
+        if v[1] == '|':
+            # a | b is a + b when no bit can be set in both: every byte of the reply occupies the 8 bits above its weight
+            spans = []
+            for x in (a, b):
+                for w in x[1].values():
+                    if w <= 0 or w & (w - 1):
+                        return None
+                    spans.append((w, w << 8))
+                if x[2] < 0:
+                    return None
+                if x[2]:
+                    spans.append((x[2] & -x[2], 1 << x[2].bit_length()))
+            spans.sort()
+            if any(spans[i][1] > spans[i + 1][0] for i in range(len(spans) - 1)):
+                return None
+        sign = -1 if v[1] == '-' else 1
+        w = dict(a[1])
+        for o, wt in b[1].items():
+            w[o] = w.get(o, 0) + sign * wt
+        return _int(w, a[2] + sign * b[2], reply)
+    if k == 'bin' and v[1] in ('<<', '*'):
+        for x, y in ((v[2], v[3]), (v[3], v[2])):
+            n = fold_sym(y, consts)
+            if n is None:
+                ny = reply_value(y, consts)
+                n = ny[2] if ny is not None and ny[0] == 'int' and not ny[1] else None
+            a = reply_value(x, consts)
+            if isinstance(n, int) and not isinstance(n, bool) and a is not None and a[0] == 'int' and (v[1] == '*' or x is v[2]):
+                if v[1] == '<<':
+                    if not 0 <= n <= 64:
+                        return None
+                    n = 1 << n
+                return _int({o: w * n for o, w in a[1].items()}, a[2] * n, a[3])
+        return None
+    if k == 'call' and v[1] == 'int' and len(v[2]) == 1 and not v[3]:
+        a = reply_value(v[2][0], consts)
+        return a if a is not None and a[0] == 'int' else None
+    if k == 'call' and v[1] == 'sum' and 1 <= len(v[2]) <= 2 and not v[3]:
+        start = reply_value(v[2][1], consts) if len(v[2]) == 2 else _int({}, 0, None)
+        elems = reply_elements(v[2][0], consts)
+        if elems is None or start is None or start[0] != 'int':
+            return None
+        total = start
+        for e in elems:
+            if e is None or e[0] != 'int':
+                return None
+            reply = _same_reply(total[3], e[3])
+            if reply is False:
+                return None
+            w = dict(total[1])
+            for o, wt in e[1].items():
+                w[o] = w.get(o, 0) + wt
+            total = _int(w, total[2] + e[2], reply)
+        return total
+    if k == 'comp':
+        elems = reply_elements(v, consts)
+        if elems is None or any(e is None for e in elems):
+            return None
+        reply = None
+        for e in elems:
+            reply = _same_reply(reply, e[-1])
+            if reply is False:
+                return None
+        return ('seq', elems, reply)
+    return None
+
+
+def reply_elements(v, consts):
+    """The values a comprehension / sequence expression produces, in order, when what it runs over is a sequence made of reply
+    bytes: [value | None], or None when the iterable is not understood."""
     s = strip(v)
-    return isinstance(s, tuple) and s and s[0] == 'mcall' and s[2] == 'ctrl_transfer'
+    if s[0] != 'comp':
+        val = reply_value(v, consts)
+        seq = _as_seq(val) if val is not None else None
+        return None if seq is None else list(seq[1])
+    _, kind, elt, names, it, ifs = s
+    if ifs or kind == 'SetComp':
+        return None
+    names = names.split(',')
+    its = strip(it)
+    rows = None
+    if its[0] == 'call' and its[1] == 'enumerate' and 1 <= len(its[2]) <= 2 and len(names) == 2:
+        start = fold_sym(its[2][1], consts) if len(its[2]) == 2 else fold_sym(dict(its[3]).get('start', C(0)), consts)
+        inner = reply_elements(its[2][0], consts)
+        if inner is None or not isinstance(start, int) or (its[3] and [k_ for k_, _ in its[3]] != ['start']):
+            return None
+        rows = [{names[0]: C(start + i), names[1]: ('rv', x)} for i, x in enumerate(inner)]
+    elif its[0] == 'call' and its[1] == 'zip' and len(its[2]) == len(names) and not its[3]:
+        cols = [reply_elements(a, consts) for a in its[2]]
+        if any(c is None for c in cols):
+            return None
+        rows = [{n: ('rv', x) for n, x in zip(names, row)} for row in zip(*cols)]
+    elif its[0] == 'call' and its[1] == 'range' and len(names) == 1 and not its[3]:
+        args = [fold_sym(a, consts) for a in its[2]]
+        if not args or len(args) > 3 or not all(isinstance(a, int) and not isinstance(a, bool) for a in args) or (len(args) == 3 and args[2] == 0):
+            return None
+        r = range(*args)
+        if len(r) > 64:
+            return None
+        rows = [{names[0]: C(i)} for i in r]
+    elif len(names) == 1:
+        inner = reply_elements(it, consts)
+        if inner is None:
+            return None
+        rows = [{names[0]: ('rv', x)} for x in inner]
+    if rows is None or any(x is None for row in rows for x in row.values()):
+        return None
+    return [reply_value(subst_vars(elt, row), consts) for row in rows]
 
 
 def reply_bytes(v, consts):
-    """How an integer (or bytes) expression is made of the bytes of a GETSTATUS reply:
-         {'weights': {offset: weight}, 'reply': reply value}     an integer  sum(reply[offset] * weight)
-         {'bytes': (offset, size), 'reply': reply value}         the byte string reply[offset : offset+size]
-       None if it is anything else."""
-    v = strip(v)
-    if not isinstance(v, tuple) or not v:
+    """{'weights': {offset: weight}, 'reply': reply value} when v is an integer made of the bytes of one GETSTATUS reply and nothing
+    else (no constant part), {'cells': [...], 'reply': ..} when it is a byte string cut out of a reply; None for anything else."""
+    val = reply_value(v, consts)
+    if val is None or val[-1] is None:
         return None
-    if v[0] == 'unpack':
-        src = strip(v[1])
-        if src[0] == 'call' and src[1] == 'struct.unpack' and len(src[2]) == 2:
-            fmt = fold_sym(src[2][0], consts)
-            lay = unpack_layout(fmt)
-            try:
-                k = int(v[2])
-            except ValueError:
-                return None
-            if lay is None or not (-len(lay) <= k < len(lay)):
-                return None
-            off, size, code = lay[k]
-            inner = reply_bytes(src[2][1], consts)
-            base = 0
-            reply = src[2][1]
-            if inner is not None and 'bytes' in inner:
-                base, reply = inner['bytes'][0], inner['reply']
-            elif not _is_reply(reply):
-                return None
-            if code == 's':
-                return {'bytes': (base + off, size), 'reply': reply}
-            w = {}
-            for b in range(size):
-                w[base + off + b] = (1 << (8 * b)) if fmt[0] in '<=' else (1 << (8 * (size - 1 - b)))
-            return {'weights': w, 'reply': reply}
-        if _is_reply(v[1]):
-            # tuple-unpacking the reply itself: status, t0, t1, t2, state, istring = reply
-            try:
-                k = int(v[2])
-            except ValueError:
-                return None
-            if k < 0:
-                k += oracle.DFU['getstatus_len']
-            return {'weights': {k: 1}, 'reply': v[1]}
-        return None
-    if v[0] == 'sub' and is_const(v[2]) and isinstance(v[2][1], int) and _is_reply(v[1]):
-        k = v[2][1]
-        return {'weights': {k if k >= 0 else k + oracle.DFU['getstatus_len']: 1}, 'reply': v[1]}
-    if v[0] == 'slice' and _is_reply(v[1]) and v[4] == C(None):
-        lo = 0 if v[2] == C(None) else fold_sym(v[2], consts)
-        hi = oracle.DFU['getstatus_len'] if v[3] == C(None) else fold_sym(v[3], consts)
-        if isinstance(lo, int) and isinstance(hi, int) and 0 <= lo <= hi:
-            return {'bytes': (lo, hi - lo), 'reply': v[1]}
-        return None
-    if v[0] == 'call' and v[1] in ('bytes', 'bytearray', 'memoryview') and len(v[2]) == 1:
-        inner = reply_bytes(v[2][0], consts)
-        if inner is not None and 'bytes' in inner:
-            return inner
-        if _is_reply(v[2][0]):
-            return {'bytes': (0, oracle.DFU['getstatus_len']), 'reply': v[2][0]}
-        return None
-    if v[0] == 'mcall' and v[1] == ('name', 'int') and v[2] == 'from_bytes' and v[3]:
-        inner = reply_bytes(v[3][0], consts)
-        order = v[3][1] if len(v[3]) > 1 else dict(v[4]).get('byteorder')
-        order = fold_sym(order, consts) if order is not None else 'big'
-        if inner is None or 'bytes' not in inner or order not in ('little', 'big') or dict(v[4]).get('signed', C(False)) != C(False):
-            return None
-        off, size = inner['bytes']
-        w = {}
-        for b in range(size):
-            w[off + b] = (1 << (8 * b)) if order == 'little' else (1 << (8 * (size - 1 - b)))
-        return {'weights': w, 'reply': inner['reply']}
-    if v[0] == 'bin' and v[1] in ('|', '+'):
-        a, b = reply_bytes(v[2], consts), reply_bytes(v[3], consts)
-        if a is None or b is None or 'weights' not in a or 'weights' not in b or set(a['weights']) & set(b['weights']) \
-                or a['reply'] != b['reply']:
-            return None
-        w = dict(a['weights'])
-        w.update(b['weights'])
-        return {'weights': w, 'reply': a['reply']}
-    if v[0] == 'bin' and v[1] in ('<<', '*'):
-        for x, y in ((v[2], v[3]), (v[3], v[2])):
-            k = fold_sym(y, consts)
-            a = reply_bytes(x, consts)
-            if isinstance(k, int) and a is not None and 'weights' in a and (v[1] == '*' or x is v[2]):
-                k = (1 << k) if v[1] == '<<' else k
-                return {'weights': {o: w * k for o, w in a['weights'].items()}, 'reply': a['reply']}
-        return None
+    if val[0] == 'int' and val[2] == 0 and val[1]:
+        return {'weights': dict(val[1]), 'reply': val[3]}
+    if val[0] == 'bytes':
+        return {'cells': list(val[1]), 'reply': val[2]}
     return None
 
 
@@ -349,6 +980,21 @@ def reply_terms(v, consts, out=None):
     return out
 
 
+def unread_reply_use(v, uid, consts):
+    """Does the value use the GETSTATUS reply `uid` (or a loop-carried value the walk lost track of) in a way that reply_terms does
+    not account for: through a call, a lookup, an object, ... ?  Such a test may well constrain the state or the status."""
+    if not isinstance(v, tuple) or not v:
+        return False
+    if v[0] == 'havoc':
+        return True
+    rb = reply_bytes(v, consts)
+    if rb is not None and 'weights' in rb:
+        return False
+    if v[0] == 'res' and _is_reply(v):
+        return reply_uid(v) == uid
+    return any(unread_reply_use(x, uid, consts) for x in v[1:])
+
+
 def eval_sym_test(test, subst, consts):
     """Truth of a symbolic test with the values in `subst` ({term: int}) plugged in; None if it cannot be evaluated."""
     if test in subst:
@@ -358,6 +1004,10 @@ def eval_sym_test(test, subst, consts):
     k = test[0]
     if k == 'res':
         return eval_sym_test(test[3], subst, consts)
+    if k == 'bin':
+        # truthiness of a number computed from the substituted terms: `if poll_timeout:` with poll_timeout = ms / 1000
+        r = eval_sym_test(('cmp', '!=', test, C(0)), subst, consts)
+        return r
     if k == 'un' and test[1] == 'not':
         r = eval_sym_test(test[2], subst, consts)
         return None if r is None else not r
@@ -383,6 +1033,21 @@ def eval_sym_test(test, subst, consts):
             if sx[0] in ('list', 'tuple', 'set'):
                 vs = [val(e) for e in sx[1]]
                 return None if any(e is None for e in vs) else vs
+            if sx[0] == 'bin' and sx[1] in ('+', '-', '*', '/', '//', '%', '<<', '>>', '|', '&', '^'):
+                a_, b_ = val(sx[2]), val(sx[3])
+                if isinstance(a_, (int, float)) and isinstance(b_, (int, float)) and not isinstance(a_, bool) and not isinstance(b_, bool):
+                    try:
+                        return {'+': lambda: a_ + b_, '-': lambda: a_ - b_, '*': lambda: a_ * b_, '/': lambda: a_ / b_, '//': lambda: a_ // b_,
+                                '%': lambda: a_ % b_, '<<': lambda: a_ << b_ if 0 <= b_ < 64 else None, '>>': lambda: a_ >> b_, '|': lambda: a_ | b_,
+                                '&': lambda: a_ & b_, '^': lambda: a_ ^ b_}[sx[1]]()
+                    except (TypeError, ValueError, ZeroDivisionError):
+                        return None
+                return None
+            if sx[0] == 'un' and sx[1] == '-':
+                a_ = val(sx[2])
+                return -a_ if isinstance(a_, (int, float)) and not isinstance(a_, bool) else None
+            if sx[0] == 'name' and isinstance(consts.get(sx[1]), (set, frozenset, dict)):
+                return consts[sx[1]]
             return fold_sym(sx, consts)
         a, b = val(test[2]), val(test[3])
         if a is None or b is None:
@@ -411,7 +1076,33 @@ def status_test(test, consts):
         rb = reply_bytes(test, consts)
         if rb is not None and rb.get('weights') == {0: 1} and consts.get('STATUS_OK') == 0:
             return ('bad', test, rb['weights'], reply_uid(rb['reply']))
+        return status_test_by_value(test, consts)
+    r = status_test_named(test, consts)
+    return r if r is not None else status_test_by_value(test, consts)
+
+
+def status_test_by_value(test, consts):
+    """Any other test over bStatus (byte 0 of one reply) and constants, decided by evaluating it for every value of the byte: it is a
+    status check when it separates 0 (OK) from all the error values ('bad' / 'ok' says which outcome the errors take); 'unclear'
+    when the test mentions the byte but cannot be evaluated; None when it is not about the status or singles out some errors only."""
+    terms = [(t, w, uid) for t, w, uid in reply_terms(test, consts) if w == {0: 1}]
+    if not terms or len({uid for _, _, uid in terms}) != 1:
         return None
+    uid = terms[0][2]
+    outcomes = []
+    for k in range(256):
+        r = eval_sym_test(test, {t: k for t, _, _ in terms}, consts)
+        if r is None:
+            return ('unclear', terms[0][0], {0: 1}, uid)
+        outcomes.append(r)
+    if not outcomes[0] and all(outcomes[1:]):
+        return ('bad', terms[0][0], {0: 1}, uid)
+    if outcomes[0] and not any(outcomes[1:]):
+        return ('ok', terms[0][0], {0: 1}, uid)
+    return None
+
+
+def status_test_named(test, consts):
     a, b = test[2], test[3]
     ok_val = consts.get('STATUS_OK')
     for x, y in ((a, b), (b, a)):
@@ -425,42 +1116,136 @@ def status_test(test, consts):
 
 
 # -- polynomials over the derived quantities ----------------------------------------------------------------------------------------
+BUFFER_COPIES = ('bytes', 'bytearray', 'memoryview')
+
+
+def buffer_copy(v):
+    """The operand of bytes(x) / bytearray(x) / memoryview(x) when x is itself a buffer expression (not a length, not a list)."""
+    if v[0] == 'call' and v[1] in BUFFER_COPIES and len(v[2]) == 1 and not v[3] and isinstance(v[2][0], tuple):
+        a = v[2][0]
+        if a[0] in ('res', 'accum', 'mcall') or (a[0] == 'call' and a[1] in BUFFER_COPIES):
+            return a
+        if a[0] == 'bin' and a[1] == '+' and (_leaf_in_sum(a)):
+            return a                  # bytes(buffer + padding); bytes(n + 1) is n + 1 zero bytes
+    return None
+
+
+def _leaf_in_sum(a):
+    """Is one operand of the (nested) sum a buffer: a bound value, an accumulation, a byte-string constant, a copy of one?"""
+    if a[0] == 'bin' and a[1] == '+':
+        return _leaf_in_sum(a[2]) or _leaf_in_sum(a[3])
+    if a[0] in ('res',):
+        return strip(a)[0] not in ('const', 'bin', 'un', 'unpack') and not (strip(a)[0] == 'call' and strip(a)[1] in ('len', 'int'))
+    return a[0] == 'accum' or (is_const(a) and isinstance(a[1], (bytes, bytearray))) or (a[0] == 'call' and a[1] in BUFFER_COPIES) \
+        or (a[0] == 'bin' and a[1] == '*' and any(is_const(x) and isinstance(x[1], bytes) for x in (a[2], a[3])))
+
+
 def buffer_leaf(v):
     """The value read from the file that a buffer expression extends (its `res` leaf), or None."""
     if v[0] == 'res':
+        inner = v[3]
+        while buffer_copy(inner) is not None:
+            inner = buffer_copy(inner)
+        if inner[0] in ('res', 'accum') or (inner[0] == 'bin' and inner[1] == '+') or (inner[0] == 'mcall' and inner[2] == 'ljust'):
+            return buffer_leaf(inner)            # a bound copy / view of a buffer built earlier: the same leaf
         return v
     if v[0] == 'accum':
         return buffer_leaf(v[1])
     if v[0] == 'bin' and v[1] == '+':
         return buffer_leaf(v[2]) or buffer_leaf(v[3])
-    if v[0] == 'call' and v[1] in ('bytes', 'bytearray') and len(v[2]) == 1 and isinstance(v[2][0], tuple):
-        return buffer_leaf(v[2][0])
+    if buffer_copy(v) is not None:
+        return buffer_leaf(buffer_copy(v))
     if v[0] == 'mcall' and v[2] in ('ljust',) and v[3]:
         return buffer_leaf(v[1])
     return None
 
 
-def whole_file_read(raw):
-    """Is the value the image length is taken from the whole content of the file?  (True, '') for `f.read()` / `f.read(-1)` /
-    `f.read(None)` / `path.read_bytes()`; (False, why) for a read that is capped (`f.read(n)`): its length is min(file size, n), so
-    a guard on it says nothing about the file; (None, why) for anything else."""
+def classify_read(raw):
+    """What a bound buffer is with respect to the file: ('whole', '') for `f.read()` / `f.read(-1)` / `f.read(None)` /
+    `path.read_bytes()` (possibly copied into bytes / bytearray / memoryview); ('capped', text) for `f.read(n)`; ('stripped', method)
+    for x.rstrip(..) / strip / lstrip / removesuffix / removeprefix of a read; ('slice', text) for a slice of what was read;
+    (None, why) for anything else."""
     v = strip(raw)
+    while buffer_copy_of_read(v) is not None:
+        v = strip(buffer_copy_of_read(v))
+    if v[0] == 'slice':
+        return 'slice', show(v)[:60]
     if v[0] != 'mcall':
         return None, 'the firmware buffer is not the result of a read call: {}'.format(show(v)[:60])
     meth, args, kwargs = v[2], v[3], v[4] if len(v) > 4 else ()
+    if meth in ('rstrip', 'strip', 'lstrip', 'removesuffix', 'removeprefix') and strip(v[1])[0] == 'mcall' and strip(v[1])[2] in ('read', 'read_bytes'):
+        return 'stripped', meth
     if meth == 'read_bytes' and not args:
-        return True, ''
+        return 'whole', ''
     if meth == 'read':
         if kwargs:
             return None, 'read() with keyword arguments'
         if not args:
-            return True, ''
+            return 'whole', ''
         if len(args) == 1 and is_const(args[0]) and (args[0][1] is None or (isinstance(args[0][1], int) and args[0][1] < 0)):
-            return True, ''
+            return 'whole', ''
         if len(args) == 1:
-            return False, 'the firmware is read with {}: at most that many bytes arrive, so a file larger than that is cut short and its real size is never seen'.format(
-                show(v)[-60:])
+            return 'capped', show(v)[-60:]
     return None, 'the firmware buffer comes from {}()'.format(meth)
+
+
+def whole_file_read(raw):
+    """Is the value the image length is taken from the whole content of the file?  (True, '') ; (False, why) for a read that is
+    capped (`f.read(n)`: its length is min(file size, n), so a guard on it says nothing about the file), stripped or sliced;
+    (None, why) for anything else."""
+    kind, text = classify_read(raw)
+    if kind == 'whole':
+        return True, ''
+    if kind == 'slice':
+        return False, 'the firmware buffer is a slice of what was read ({}): the length that is guarded is not the length of the file'.format(text)
+    if kind == 'stripped':
+        return False, ('the firmware is {}()-ed after reading and the size guard looks at what is left: a file larger than the flash whose tail is stripped '
+                       'is accepted, although it is the file that must fit').format(text)
+    if kind == 'capped':
+        return False, 'the firmware is read with {}: at most that many bytes arrive, so a file larger than that is cut short and its real size is never seen'.format(text)
+    return None, text
+
+
+def flashed_image_is_file(raw):
+    """Is the buffer that is padded and written the content of the firmware file?  (True, '') / (False, what it is instead) /
+    (None, why it is not known)."""
+    kind, text = classify_read(raw)
+    if kind == 'whole':
+        return True, ''
+    if kind == 'slice':
+        return False, 'a slice of what was read ({})'.format(text)
+    if kind == 'stripped':
+        return False, 'what is left of the file after {}(): the bytes taken off are not written, and the zero padding starts where they began'.format(text)
+    if kind == 'capped':
+        return False, 'at most the first bytes of the file ({})'.format(text)
+    return None, text
+
+
+def buffer_copy_of_read(v):
+    """bytes(f.read()) / bytearray(f.read()) / memoryview(f.read()): as long as the file content itself."""
+    if v[0] == 'call' and v[1] in BUFFER_COPIES and len(v[2]) == 1 and not v[3] and isinstance(v[2][0], tuple) and v[2][0][0] in ('mcall', 'call'):
+        return v[2][0]
+    return None
+
+
+def file_read_of(v):
+    """Is the bound value the content of a file (a read call, possibly copied into bytes / bytearray / memoryview)?"""
+    if not (isinstance(v, tuple) and v and v[0] == 'res'):
+        return False
+    x = strip(v)
+    while buffer_copy_of_read(x) is not None:
+        x = strip(buffer_copy_of_read(x))
+    return x[0] == 'mcall' and x[2] in ('read', 'read_bytes', 'readall')
+
+
+class DivMod:
+    """One Euclidean division on a path: a = q*b + r with 0 <= r < b, from `q, r = divmod(a, b)` or `a // b` and `a % b`."""
+
+    def __init__(self, a, b, q, r):
+        self.a, self.b, self.q, self.r = a, b, q, r       # symbolic terms (q or r may be None when only one of them is used)
+        self.pa = self.pb = None                          # polynomials of a and b
+        self.r_zero = None                                # True: the path has r == 0 ; False: r != 0 ; None: not known
+        self.r_free = False                               # the branch conditions were read and allow r == 0 as well as some r != 0
 
 
 class Sym:
@@ -469,17 +1254,64 @@ class Sym:
     def __init__(self, consts, page_vars=(), raw=None):
         self.consts = consts
         self.page_vars = set(page_vars)     # havoc symbols standing for the page index
-        self.page_values = {}               # havoc symbol of a range() loop variable -> START + PAGE*STEP
+        self.page_values = {}               # havoc symbol of a loop variable -> its value as a polynomial in PAGE
+        self.var_values = {}                # comprehension variable name -> polynomial
         self.raw = raw                      # the `res` value read from the file: len(raw) is LEN
+        self.divmods = []                   # DivMod relations of the path (see PathModel.arith)
+
+    # -- Euclidean divisions -----------------------------------------------------------------------------------------------
+    def normal(self, p):
+        """p with every dividend a that is a single symbol replaced by q*b + r (and r by 0 where the path has r == 0)."""
+        for d in self.divmods:
+            if d.pa is None or d.q is None or d.r is None:
+                continue
+            if len(d.pa.terms) == 1:
+                (mono, c), = d.pa.terms.items()
+                if len(mono) == 1 and c == 1:
+                    p = p.subst(mono[0], Poly.sym(d.q) * d.pb + Poly.sym(d.r))
+            if d.r_zero:
+                p = p.subst(d.r, Poly.const(0))
+        return p
+
+    def mod(self, x, y, v):
+        """x % y for polynomials (v: the term itself, returned as an opaque symbol when nothing better is known)."""
+        x = self.normal(x)
+        rest = {}
+        for k, c in x.terms.items():
+            if divide(Poly({k: c}), y) is None:
+                rest[k] = c
+        rest = Poly(rest)
+        if rest.is_zero():
+            return Poly.const(0)
+        for d in self.divmods:
+            if d.r is None or d.pb is None or not (d.pb == y):
+                continue
+            R = Poly.sym(d.r)
+            if rest == R:
+                return R                                   # 0 <= r < b
+            if rest == -R:
+                if d.r_zero is False:
+                    return y - R                           # 0 < b - r < b
+                if d.r_zero:
+                    return Poly.const(0)
+        return Poly.sym(v)
 
     def length(self, v):
         """len(v) of a bytes expression."""
         if self.raw is not None and v == self.raw:
             return Poly.sym(LEN)
         if v[0] == 'res':
+            leaf = buffer_leaf(v)
+            if leaf is not None and leaf is not v and leaf != v:
+                inner = v[3]
+                while buffer_copy(inner) is not None:
+                    inner = buffer_copy(inner)
+                return self.length(inner)
             return Poly.sym(('len', v))
         if is_const(v) and isinstance(v[1], (bytes, str)):
             return Poly.const(len(v[1]))
+        if v[0] == 'name' and isinstance(self.consts.get(v[1]), (bytes, str)):
+            return Poly.const(len(self.consts[v[1]]))
         if v[0] == 'accum':
             init, it, elem, meth = v[1], strip(v[2]), v[3], v[4]
             if it[0] == 'call' and it[1] == 'range' and len(it[2]) == 1:
@@ -489,55 +1321,128 @@ class Sym:
             return self.length(v[2]) + self.length(v[3])
         if v[0] == 'bin' and v[1] == '*':
             for a, b in ((v[2], v[3]), (v[3], v[2])):
-                if is_const(a) and isinstance(a[1], (bytes, str)):
-                    return self.poly(b) * Poly.const(len(a[1]))
-        if v[0] == 'call' and v[1] in ('bytes', 'bytearray') and len(v[2]) == 1:
+                ca = self.byte_const(a)
+                if ca is not None:
+                    return self.poly(b) * Poly.const(len(ca))
+        if buffer_copy(v) is not None:
+            return self.length(buffer_copy(v))
+        if v[0] == 'call' and v[1] in ('bytes', 'bytearray') and len(v[2]) == 1 and not v[3]:
             a = v[2][0]
-            if buffer_leaf(a) is not None or (is_const(a) and isinstance(a[1], bytes)):
-                return self.length(a)
-            return self.poly(a)               # bytes(n): n zero bytes
+            if self.byte_const(a) is not None:
+                return Poly.const(len(self.byte_const(a)))
+            if a[0] in ('list', 'tuple') and not any(e[0] == 'star' for e in a[1]):
+                return Poly.const(len(a[1]))
+            if a[0] in ('const', 'name', 'bin', 'un', 'unpack') or (a[0] == 'res' and strip(a)[0] in ('const', 'bin', 'un', 'unpack')):
+                return self.poly(a)           # bytes(n): n zero bytes
+        if v[0] == 'mcall' and v[2] == 'ljust' and 1 <= len(v[3]) <= 2 and not v[4]:
+            # x.ljust(n, fill) is max(len(x), n) bytes long: n when n - len(x) is known not to be negative on this path
+            have, want = self.length(v[1]), self.poly(v[3][0])
+            gap = self.normal(want - have)
+            if self.nonneg(gap):
+                return want
+            if self.nonneg(-gap):
+                return have
+            raise Undecided('x.ljust(n): whether n exceeds len(x) is not known: n - len(x) = {}'.format(gap))
         raise Undecided('buffer expression outside the padding fragment: {}'.format(show(v)[:80]))
 
-    def zero_extension(self, v):
-        """True if v is its leaf extended only by zero bytes at the end."""
-        if v[0] == 'res':
+    def nonneg(self, p):
+        """Is the polynomial known to be >= 0 on this path?  Constants, r, b - r, and sums of such with non-negative factors."""
+        if p.is_zero():
             return True
-        if is_const(v) and isinstance(v[1], bytes):
-            return set(v[1]) <= {0}
-        if v[0] == 'accum':
-            return self.zero_extension(v[1]) and self.zeros(v[3])
-        if v[0] == 'bin' and v[1] == '+':
-            return self.zero_extension(v[2]) and self.zeros(v[3])
-        if v[0] == 'call' and v[1] in ('bytes', 'bytearray') and len(v[2]) == 1 and buffer_leaf(v[2][0]) is not None:
-            return self.zero_extension(v[2][0])
+        if all(k == () for k in p.terms):
+            return p.terms[()] >= 0
+        for d in self.divmods:
+            if d.r is None or d.pb is None:
+                continue
+            R = Poly.sym(d.r)
+            for q in (R, d.pb - R):
+                if p == q:
+                    return True
         return False
 
-    def zeros(self, v):
-        if is_const(v) and isinstance(v[1], bytes):
-            return set(v[1]) <= {0}
-        if v[0] == 'bin' and v[1] == '*':
-            return any(is_const(a) and isinstance(a[1], bytes) and set(a[1]) <= {0} for a in (v[2], v[3]))
-        if v[0] == 'bin' and v[1] == '+':
-            return self.zeros(v[2]) and self.zeros(v[3])
-        if v[0] == 'call' and v[1] in ('bytes', 'bytearray') and len(v[2]) == 1:
-            a = v[2][0]
-            return not (buffer_leaf(a) is not None) and (not is_const(a) or isinstance(a[1], int))
-        if v[0] == 'accum':
-            return self.zeros(v[1]) and self.zeros(v[3])
+    def positive(self, p):
+        """Is the polynomial known to be > 0 on this path?  Positive constants, b - r of a Euclidean division, r where the path has
+        r != 0."""
+        if p.terms and all(k == () for k in p.terms):
+            return p.terms[()] > 0
+        for d in self.divmods:
+            if d.r is None or d.pb is None:
+                continue
+            R = Poly.sym(d.r)
+            if p == d.pb - R or (d.r_zero is False and p == R):
+                return True
         return False
+
+    def byte_const(self, v):
+        """bytes value of a byte-string constant (literal or module-level name), else None."""
+        if is_const(v) and isinstance(v[1], bytes):
+            return v[1]
+        if v[0] == 'name' and isinstance(self.consts.get(v[1]), bytes):
+            return self.consts[v[1]]
+        return None
+
+    def zero_extension(self, v):
+        """True if v is its leaf extended only by zero bytes at the end, False if a byte that is not zero is added, None when the
+        construction is not understood."""
+        if v[0] == 'res':
+            leaf = buffer_leaf(v)
+            if leaf is not None and leaf != v:
+                inner = v[3]
+                while buffer_copy(inner) is not None:
+                    inner = buffer_copy(inner)
+                return self.zero_extension(inner)
+            return True
+        if v[0] == 'accum':
+            return and3(self.zero_extension(v[1]), self.zeros(v[3]))
+        if v[0] == 'bin' and v[1] == '+':
+            return and3(self.zero_extension(v[2]), self.zeros(v[3]))
+        if buffer_copy(v) is not None:
+            return self.zero_extension(buffer_copy(v))
+        if v[0] == 'mcall' and v[2] == 'ljust' and 1 <= len(v[3]) <= 2 and not v[4]:
+            fill = self.zeros(v[3][1]) if len(v[3]) == 2 else False       # the default fill byte is a space
+            return and3(self.zero_extension(v[1]), fill)
+        return None
+
+    def zeros(self, v):
+        """True: only zero bytes; False: a constant with another byte in it; None: not understood."""
+        c = self.byte_const(v)
+        if c is not None:
+            return set(c) <= {0}
+        if v[0] == 'bin' and v[1] == '*':
+            for a, b in ((v[2], v[3]), (v[3], v[2])):
+                if self.byte_const(a) is not None:
+                    return set(self.byte_const(a)) <= {0}
+            return None
+        if v[0] == 'bin' and v[1] == '+':
+            return and3(self.zeros(v[2]), self.zeros(v[3]))
+        if v[0] == 'call' and v[1] in ('bytes', 'bytearray') and len(v[2]) == 1 and not v[3]:
+            a = v[2][0]
+            if self.byte_const(a) is not None:
+                return set(self.byte_const(a)) <= {0}
+            if a[0] in ('list', 'tuple'):
+                vals = [fold_sym(e, self.consts) for e in a[1]]
+                return None if any(not isinstance(x, int) for x in vals) else all(x == 0 for x in vals)
+            if buffer_leaf(a) is None and (a[0] in ('const', 'name', 'bin', 'un', 'unpack') or (a[0] == 'res' and strip(a)[0] in ('const', 'bin', 'un', 'unpack'))):
+                return True                   # bytes(n)
+            return None
+        if v[0] == 'accum':
+            return and3(self.zeros(v[1]), self.zeros(v[3]))
+        return None
 
     def poly(self, v):
         if v in self.page_values:
             return self.page_values[v]
         if v in self.page_vars:
             return Poly.sym(PAGE)
+        if v[0] == 'var' and len(v) == 2 and v[1] in self.var_values:
+            return self.var_values[v[1]]
         if is_const(v):
             if isinstance(v[1], int) and not isinstance(v[1], bool):
                 return Poly.const(v[1])
             return Poly.sym(v)
         if v[0] == 'res':
             inner = strip(v)
-            if is_const(inner) or inner[0] in ('bin', 'name') or (inner[0] == 'call' and inner[1] == 'len'):
+            if is_const(inner) or inner[0] in ('bin', 'name', 'un') or (inner[0] == 'call' and inner[1] in ('len', 'int')):
                 return self.poly(inner)
             return Poly.sym(v)
         if v[0] == 'name':
@@ -552,8 +1457,19 @@ class Sym:
             k = fold_sym(v[3], self.consts)
             if isinstance(k, int) and 0 <= k < 64:
                 return self.poly(v[2]) * Poly.const(1 << k)
+        if v[0] == 'bin' and v[1] in ('//', '%'):
+            for d in self.divmods:
+                if v == d.q or v == d.r:
+                    return Poly.sym(v)
+            x, y = self.poly(v[2]), self.poly(v[3])
+            if v[1] == '//':
+                q = divide(self.normal(x), y)
+                return q if q is not None else Poly.sym(v)
+            return self.mod(x, y, v)
         if v[0] == 'un' and v[1] == '-':
             return -self.poly(v[2])
+        if v[0] == 'un' and v[1] == '+':
+            return self.poly(v[2])
         if v[0] == 'call' and v[1] == 'len' and len(v[2]) == 1:
             try:
                 return self.length(v[2][0])
@@ -577,6 +1493,15 @@ class Sym:
             return None
         a, b = self.poly(test[2]), self.poly(test[3])
         return {'>': a - b, '>=': a - b + Poly.const(1), '<': b - a, '<=': b - a + Poly.const(1)}[test[1]]
+
+
+def and3(a, b):
+    """Three-valued and: False wins, then None."""
+    if a is False or b is False:
+        return False
+    if a is None or b is None:
+        return None
+    return True
 
 
 def split_by(poly, sym):
@@ -617,6 +1542,24 @@ def divide(r, s):
     return Poly(out)
 
 
+def calls_something(v):
+    """Does evaluating the expression call anything but a handful of pure builtins?  Bound results ('res') are values already."""
+    if not isinstance(v, tuple) or not v or v[0] in ('res', 'const'):
+        return False
+    if v[0] in ('mcall', 'callv') or (v[0] == 'call' and v[1] not in ('len', 'range', 'int', 'bytes', 'bytearray', 'min', 'max', 'divmod')):
+        return True
+    return any(calls_something(x) for x in v[1:])
+
+
+class PageLoop:
+    """A `for` loop that runs once per page: idx (LOOP event), node (ast.For), rng (the range(...) value it runs over), values
+    ({havoc symbol of a loop variable: its value as a polynomial in PAGE})."""
+
+    def __init__(self, idx, node, rng, values, terms=None):
+        self.idx, self.node, self.rng, self.values = idx, node, rng, values
+        self.terms = terms or {}       # havoc symbol of a loop variable -> (element expression of the comprehension, {its variable: polynomial})
+
+
 class PathModel:
     """Everything the rules need to know about one path of cli_main."""
 
@@ -625,14 +1568,16 @@ class PathModel:
         self.consts = consts
         self.evs = protocol_events(path, consts)
         self.reqs = [e[3] for e in self.evs if e[0] == 'REQ']
-        # enclosing for-loops of every request
+        # enclosing loops of every request: (LOOP / WHILE event idx, node, iterable or None for a while loop)
         self.loops_of = {}
         self.loop_end = {}
         stack = []
         for kind, idx, node, payload in self.evs:
             if kind == 'LOOP':
                 stack.append((idx, node, payload))
-            elif kind == 'ENDLOOP':
+            elif kind == 'WHILE':
+                stack.append((idx, node, None))
+            elif kind in ('ENDLOOP', 'ENDWHILE', 'ENDWHILE0'):
                 for j in range(len(stack) - 1, -1, -1):
                     if stack[j][1] is node:
                         self.loop_end[stack[j][0]] = idx
@@ -641,24 +1586,107 @@ class PathModel:
             elif kind == 'REQ':
                 self.loops_of[payload.idx] = list(stack)
         self.sends = [r for r in self.reqs if r.kind in DNLOAD_KINDS or r.kind in ('CLR', 'DNLOAD?')]
+        self._raw = False
 
-    def page_loop(self, req):
-        """(LOOP event idx, For node, iterable, loop-variable havoc symbol) of the innermost enclosing `for V in range(...)` loop."""
-        for idx, node, it in reversed(self.loops_of.get(req.idx, [])):
+    def for_loops_of(self, req):
+        return [lp for lp in self.loops_of.get(req.idx, []) if lp[2] is not None]
+
+    def raw(self):
+        """The bound value read from the firmware file on this path (len() of it is LEN): the leaf of the buffer the data download
+        slices when the path gets that far, else the one bound file read of the path; None when there is none (or several)."""
+        if self._raw is not False:
+            return self._raw
+        self._raw = None
+        for r in self.reqs:
+            if r.kind == 'DATA':
+                try:
+                    shape = self.data_shape(r, probe=True)
+                except Undecided:
+                    shape = None
+                if shape is not None and not isinstance(shape, str) and shape[4] is not None:
+                    self._raw = shape[4]
+                break
+        if self._raw is None:
+            reads = []
+            for ev in self.p.events:
+                if ev[0] == 'value' and file_read_of(ev[1]) and ev[1] not in reads:
+                    reads.append(ev[1])
+            if len(reads) == 1:
+                self._raw = reads[0]
+        return self._raw
+
+    def loop_values(self, node, it, sym):
+        """({havoc symbol: polynomial in PAGE}, range value) for the targets of a loop over range(..) / enumerate(..) / a
+        comprehension over such, or None."""
+        tag = 'loop@{}'.format(node.lineno)
+        terms = {}
+
+        def shape(target, it):
+            """(values, range value, polynomial of the element bound to `target` or None when target is a pattern)."""
             its = strip(it)
-            if its[0] == 'call' and its[1] == 'range' and isinstance(node.target, ast.Name) and 1 <= len(its[2]) <= 3 and not its[3]:
-                return idx, node, its, ('havoc', node.target.id, 'loop@{}'.format(node.lineno))
-        return None
+            if unwrap1(its) is not None and loop_range(its) is not None:
+                return shape(target, unwrap1(its))
+            if its[0] == 'call' and its[1] == 'range' and 1 <= len(its[2]) <= 3 and not its[3] and isinstance(target, ast.Name):
+                args = its[2]
+                start = sym.poly(args[0]) if len(args) >= 2 else Poly.const(0)
+                step = sym.poly(args[2]) if len(args) == 3 else Poly.const(1)
+                val = start + Poly.sym(PAGE) * step
+                return {('havoc', target.id, tag): val}, its, val
+            if (its[0] == 'call' and its[1] == 'enumerate' and 1 <= len(its[2]) <= 2 and all(k == 'start' for k, _ in its[3])
+                    and isinstance(target, (ast.Tuple, ast.List)) and len(target.elts) == 2 and isinstance(target.elts[0], ast.Name)):
+                first = its[2][1] if len(its[2]) == 2 else dict(its[3]).get('start', C(0))
+                inner = shape(target.elts[1], its[2][0])
+                if inner is None:
+                    return None
+                vals = dict(inner[0])
+                vals[('havoc', target.elts[0].id, tag)] = Poly.sym(PAGE) + sym.poly(first)
+                return vals, inner[1], None
+            if its[0] == 'comp' and not its[5] and its[1] in ('ListComp', 'GeneratorExp') and isinstance(target, ast.Name) and ',' not in its[3]:
+                # for T in [E(v) for v in X]: T is E(v) for the v of that iteration (E is a pure arithmetic expression or the value
+                # is not understood as a polynomial and stays opaque)
+                inner = shape(ast.Name(id=its[3], ctx=ast.Store()), its[4])
+                if inner is None or inner[2] is None:
+                    return None
+                sub = Sym(sym.consts, [], sym.raw)
+                sub.divmods = sym.divmods
+                sub.var_values = {its[3]: inner[2]}
+                if calls_something(its[2]):
+                    return None                       # the element expression calls something: evaluated once, before the loop
+                val = sub.poly(its[2])
+                terms[('havoc', target.id, tag)] = (its[2], {its[3]: inner[2]})
+                return {('havoc', target.id, tag): val}, inner[1], val
+            return None
+        got = shape(node.target, it)
+        return None if got is None else (got[0], got[1], terms)
+
+    def page_loop(self, req, raw=None):
+        """PageLoop of the innermost loop enclosing the request.  None when the request is not inside any loop; no verdict when it
+        is inside a loop the rules cannot follow (a `while`, a `for` over something that is not a range / enumerate / comprehension
+        over a range)."""
+        loops = self.loops_of.get(req.idx, [])
+        if not loops:
+            return None
+        idx, node, it = loops[-1]
+        if it is None:
+            raise Undecided('the {} request at line {} is issued from a `while` loop: which page an iteration works on is not followed'.format(req.kind, req.line))
+        sym = self.base_sym(raw)
+        got = self.loop_values(node, it, sym)
+        if got is None:
+            raise Undecided('the {} request at line {} sits in a loop over {} which is not a range(..) the rules can follow'.format(
+                req.kind, req.line, show(it)[:80]))
+        return PageLoop(idx, node, got[1], got[0], got[2])
+
+    def base_sym(self, raw=None):
+        sym = Sym(self.consts, [], raw)
+        sym.divmods = path_divmods(self.p, sym)
+        return sym
 
     def sym_for(self, req, raw=None):
-        """Polynomial view for a request: the variable of the enclosing range() loop stands for START + PAGE*STEP."""
-        pl = self.page_loop(req)
-        sym = Sym(self.consts, [], raw)
+        """Polynomial view for a request: the variables of the enclosing page loop stand for their values in terms of PAGE."""
+        sym = self.base_sym(raw)
+        pl = self.page_loop(req, raw) if req is not None else None
         if pl:
-            args = pl[2][2]
-            start = sym.poly(args[0]) if len(args) >= 2 else Poly.const(0)
-            step = sym.poly(args[2]) if len(args) == 3 else Poly.const(1)
-            sym.page_values[pl[3]] = start + Poly.sym(PAGE) * step
+            sym.page_values.update(pl.values)
         return sym
 
     def trip_count(self, rng, sym):
@@ -667,23 +1695,47 @@ class PathModel:
         return range_trips(rng, sym)
 
     # the data download fixes S, FW and the raw image
-    def data_shape(self, req):
-        """(FW, lo poly, hi poly, S poly, raw) for a DATA request, or a string saying why the payload is not a slice."""
-        code = strip(req.payload)
-        while code[0] == 'call' and code[1] in ('bytes', 'bytearray', 'memoryview') and len(code[2]) == 1:
-            code = strip(code[2][0])
+    def data_shape(self, req, probe=False):
+        """(FW, lo poly, hi poly, S poly, raw) for a DATA request, or a string saying why the payload is positively not a page-sized
+        slice; no verdict when the chunk is not followed back to the firmware buffer."""
+        def peel(code):
+            code = strip(code)
+            while buffer_copy(code) is not None or (code[0] == 'call' and code[1] in BUFFER_COPIES and len(code[2]) == 1 and strip(code[2][0])[0] in ('slice', 'havoc')):
+                code = strip(code[2][0])
+            return code
+        code = peel(req.payload)
+        var_values = {}
+        if code[0] == 'havoc':
+            # the chunk is the variable of a loop over a list of chunks written as a comprehension: the element expression, with the
+            # comprehension variable standing for its value in that iteration
+            pl = self.page_loop(req)
+            if pl is not None and code in pl.terms:
+                elt, var_values = pl.terms[code]
+                code = peel(elt)
         if code[0] != 'slice':
-            if code[0] == 'havoc' or code[0] in ('unpack', 'callv', 'call', 'mcall', 'sub'):
-                # a chunk that comes out of a loop over something else (a generator of pages, a pre-split list): not followed
-                raise Undecided('the chunk sent by the data download ({}) is not followed back to the firmware buffer'.format(show(code)[:60]))
-            return 'the payload {} is not a slice of the firmware buffer'.format(show(code)[:60])
+            if buffer_leaf(code) is not None and code[0] in ('res', 'accum', 'bin'):
+                return 'the payload {} is the whole buffer, not a page-sized slice of it'.format(show(code)[:60])
+            if is_const(code):
+                return 'the payload {} is a constant, not a slice of the firmware buffer'.format(show(code)[:60])
+            # a chunk that comes out of a loop over something else (a generator of pages, a pre-split list), out of a helper that is
+            # not followed, ...
+            raise Undecided('the chunk sent by the data download ({}) is not followed back to the firmware buffer'.format(show(code)[:60]))
         if code[4] != C(None):
-            return 'the slice has a step'
+            step = fold_sym(code[4], self.consts)
+            if step != 1:
+                if isinstance(step, int):
+                    return 'the slice has a step'
+                raise Undecided('the slice sent by the data download has a step that is not a constant')
         fw = code[1]
-        raw = buffer_leaf(fw if fw[0] != 'res' else fw)
+        raw = buffer_leaf(fw)
+        if probe:
+            return fw, None, None, None, raw
         sym = self.sym_for(req, raw)
+        sym.var_values.update(var_values)
         lo = sym.poly(code[2]) if code[2] != C(None) else Poly.const(0)
         if code[3] == C(None):
+            if strip(fw)[0] == 'slice':
+                raise Undecided('the chunk is a slice of a slice')
             return 'the slice has no upper bound'
         hi = sym.poly(code[3])
         return fw, lo, hi, hi - lo, raw
@@ -698,8 +1750,26 @@ class PathModel:
                     out.append((idx, node, payload[1], g))
         return out
 
+    def unread_inequalities(self, sym, before_idx, lengths=False):
+        """Branch conditions before `before_idx` that compare sizes the rules cannot relate to the firmware length (an inequality
+        whose terms are calls / lookups that are not followed): a size guard may hide in them.  With `lengths` a comparison of
+        the length of a bound buffer counts as read."""
+        out = []
+        for kind, idx, node, payload in self.evs:
+            if kind == 'COND' and idx < before_idx:
+                g = sym.gt(payload[0])
+                if g is None or mentions(g, LEN):
+                    continue
+                syms = [s_ for k in g.terms for s_ in k]
+                if lengths and any(isinstance(s_, tuple) and s_ and s_[0] == 'len' for s_ in syms):
+                    continue
+                if any(opaque_symbol(s_) for s_ in syms):
+                    out.append((idx, node, payload[0]))
+        return out
+
     def gd32_letter(self):
-        """Serial-number letter this path is specialised to by an `sn[2] == 'X'` test, or None."""
+        """Serial-number letter this path is specialised to by an `sn[2] == 'X'` test (or any other test from which the walk learnt
+        that sn[2] equals one letter: `sn[2] in ('X',)`, a membership test forked per element), or None."""
         for t, pol, node in self.p.conds:
             t = strip(t)
             if pol and t[0] == 'cmp' and t[1] == '==':
@@ -707,7 +1777,73 @@ class PathModel:
                     sx = strip(x)
                     if is_const(y) and isinstance(y[1], str) and len(y[1]) == 1 and sx[0] == 'sub' and sx[2] == C(2):
                         return y[1], node
+            if pol and t[0] == 'cmp' and t[1] == 'in' and strip(t[2])[0] == 'sub' and strip(t[2])[2] == C(2) and t[3][0] in ('tuple', 'list', 'set') \
+                    and len(t[3][1]) == 1 and is_const(t[3][1][0]) and isinstance(t[3][1][0][1], str) and len(t[3][1][0][1]) == 1:
+                return t[3][1][0][1], node
         return None
+
+
+def opaque_symbol(s_):
+    """A polynomial symbol whose value the rules do not know anything about: the result of a call / method call / subscript /
+    attribute (as opposed to a plain variable such as an unbound `page_size`, a constant, LEN, PAGE or a divmod part)."""
+    if not isinstance(s_, tuple) or not s_:
+        return False
+    if s_ in (LEN, PAGE):
+        return False
+    t = strip(s_)
+    if t[0] in ('call', 'mcall', 'callv', 'sub', 'attr', 'havoc', 'opaque', 'ifexp', 'slice', 'comp', 'var'):
+        return not (t[0] == 'call' and t[1] == 'len')
+    if t[0] == 'bin':
+        return True
+    if s_[0] == 'len':
+        return False
+    return False
+
+
+def understood(poly, sym, extra=()):
+    """Are all symbols of a residue quantities the rules know: LEN, PAGE, the parts of the path's Euclidean divisions, plain
+    variables and the symbols in `extra`?  A residue over anything else (the result of a call, a lookup, ...) proves nothing."""
+    known = set(extra)
+    for d in sym.divmods:
+        if d.q is not None and d.r is not None:
+            known.update((d.q, d.r))
+    for mono in poly.terms:
+        for s_ in mono:
+            if s_ in known:
+                continue
+            if opaque_symbol(s_):
+                return False
+    return True
+
+
+def table_values(poly, consts):
+    """{key: integer value of the polynomial} when its only symbols are lookups TABLE[k] / TABLE.get(k) of one module-level constant
+    dict with integer values, all with the same key expression k; (None, None) otherwise.  Returns (values, key expression)."""
+    lookups = {}
+    for mono in poly.terms:
+        for s_ in mono:
+            tl = table_lookup(s_, consts) if isinstance(s_, tuple) else None
+            if tl is None:
+                return None, None
+            lookups[s_] = tl
+    if not lookups:
+        return None, None
+    names = {tl[0] for tl in lookups.values()}
+    keys = {tl[2] for tl in lookups.values()}
+    if len(names) != 1 or len(keys) != 1:
+        return None, None
+    dct = next(iter(lookups.values()))[1]
+    if not all(isinstance(x, int) and not isinstance(x, bool) for x in dct.values()):
+        return None, None
+    out = {}
+    for k_, val in dct.items():
+        p = poly
+        for s_ in lookups:
+            p = p.subst(s_, Poly.const(val))
+        if any(m != () for m in p.terms):
+            return None, None
+        out[k_] = p.terms.get((), 0)
+    return out, next(iter(keys))
 
 
 def table_lookup(v, consts):
